@@ -66,7 +66,9 @@ def op_expr(o):
         return 'Add KDest %s %s %s' % (z(a[0]), z(a[1]), z(a[2]))
     if n[0] == 'f' and len(n) == 2:
         return 'Find %s %s' % (KINDS[n[1]], z(a[0]))
-    if n[0] == 'd' and len(n) == 2:
+    if n[0] in 'dD' and len(n) == 2:
+        # Dp / Dx / Ds / Dc: the handle is dropped while another thread holds the conductor mutex for a while - the destructor waits and then
+        # releases, so the operation is the plain drop for the model (the lock only delays)
         return 'DropHandle %s %s' % (KINDS[n[1]], z(a[0]))
     if n[0] == 'p' and len(n) == 2:
         return 'Peek %s %s' % (KINDS[n[1]], z(a[0]))
@@ -722,6 +724,10 @@ def scripted():
           cfg=(0, 1000000, 10000, 20000))
     # publications / subscriptions / counters requested some time after the last duty cycle (same clause)
     h('add-after-idle-timeout-from-request', 'hb 1000000; w; tk 4000; ap 1 1; as 1 1; ac 1 1 1; tk 6001; fp 1; fs 2; fc 3; tk 3999; fp 1; fs 2; fc 3; tk 1; fp 1; fs 2; fc 3')
+    # the last handle goes away while another thread is inside the conductor (Dp / Ds / Dc: a helper thread holds the conductor mutex for
+    # 150 ms): the destructor must wait and still send exactly one Remove command
+    h('drop-while-conductor-locked', 'hb 1000000; ap 1 1; as 1 1; ac 1 1 1; we pr 1 1 1 5 3 4; we sr 2 6; we cr 3 9; fp 1; fs 2; fc 3; we ai 70 1 1 2; Dp 1; Ds 2; Dc 3; fp 1; fs 2; fc 3; Dp 1; Dc 3')
+    h('drop-while-conductor-locked-after-close', 'hb 1000000; ap 1 1; ac 1 1 1; we pr 1 1 1 5 3 4; we cr 2 9; fp 1; fc 2; cl; Dp 1; Dc 2; fp 1')
     if has_find_excl_hook():
         h('chan-error-xpub', 'hb 1000000; ax 1 1; ax 2 2; ax 3 3; we xr 1 1 5 3 6; we xr 2 2 5 3 6; we xr 3 3 5 3 7; fx 1; fx 3; we er 6 4; px 1; fx 1; fx 2; fx 3; px 3; dx 1; we er 6 4; fx 2; cl')
     if has_find_excl_hook():
@@ -734,8 +740,22 @@ def scripted():
         h('xpub-client-timeout', 'hb 1000000; ax 4 9; we xr 1 9 5 3 4; fx 1; we ct 0; px 1; fx 1; dx 1; w')
         h('xpub-ring-full-drop', 'hb 1000000; ax 4 9; we xr 1 9 5 3 4; fx 1; rf 1; dx 1; fx 1; rf 0; fx 1; cl')
         h('xpub-close-then-drop', 'hb 1000000; ax 1 1; we xr 1 1 5 3 4; cx 1; fx 1; cx 1; px 1; fx 1; dx 1; fx 1; cx 1; ax 2 2 488; we xr 3 2 5 3 4; fx 3; cx 3; cl; px 3; dx 3')
+        h('xpub-drop-while-conductor-locked', 'hb 1000000; ax 4 9; we xr 1 9 5 3 4; fx 1; Dx 1; fx 1; Dx 1; ax 4 9; we xr 3 9 5 3 4; fx 3; cx 3; Dx 3')
         h('xpub-same-while-held', 'hb 1000000; ax 4 9; ax 4 9; we xr 2 9 5 3 4; we xr 1 9 5 3 4; fx 2; fx 1; fx 2; fx 1; px 1; px 2; dx 2; fx 1; fx 2')
     return [conv(c) for c in H]
+
+
+def with_locked_drops(case, rng):
+    """A variant of the history in which handle drops happen while another thread holds the conductor mutex (harness ops Dp / Dx / Ds / Dc,
+    150 ms each): the observation must be that of the plain drop. At most four per history (time)."""
+    ops, k = [], 0
+    for o in case['ops']:
+        if o[0] in ('dp', 'dx', 'ds', 'dc') and k < 4 and rng.random() < 0.7:
+            ops.append(['D' + o[0][1]] + list(o[1:]))
+            k += 1
+        else:
+            ops.append(o)
+    return dict(case, ops=ops)
 
 
 def shrink(c):
